@@ -105,12 +105,6 @@ CheckEvents(n, ev, obsEv) ==
 
 ProcessingCall(a) == a[1] \in {"update", "react", "imm"}
 
-\* all rounds of the step vetoed (or without effect), nothing scheduled: nothing may have changed
-FullyVetoed(m) ==
-    /\ \E i \in 1 .. Len(m.rounds) : m.rounds[i][1] = "vetoed"
-    /\ \A i \in 1 .. Len(m.rounds) : m.rounds[i][1] # "approved"
-    /\ \A i \in 1 .. Len(m.rounds) : \A j \in 1 .. Len(m.rounds[i][2]) : m.rounds[i][2][j][3] # "schedule"
-
 Monitors(n, pre, m, rec, entered) ==
     LET post == rec.post  ev == rec.ev  run == BalancedRun(entered, ev) IN
     \* C01 : well-formed configuration after the call and inside every callback that can observe it
